@@ -50,6 +50,8 @@ func main() {
 			os.Exit(2)
 		}
 		fmt.Println("selftest ok")
+	case "xproc-child":
+		os.Exit(sim.XProcChild())
 	case "shard":
 		os.Exit(shardMain(os.Args[2:]))
 	case "check":
